@@ -154,6 +154,7 @@ func c04Child(ctx *runCtx, spec string) {
 		}
 		counter := 0
 		violated := false
+		fp := c.Fingerprint()
 		for st := 0; st < steps && !violated; st++ {
 			key := keys[rng.Intn(len(keys))]
 			kind := kinds[rng.Intn(len(kinds))]
@@ -275,6 +276,11 @@ func c04Child(ctx *runCtx, spec string) {
 			}
 			ctx.rep.Count("fragment_comparisons", 1)
 			ctx.rep.Count("backup_copies_compared", int64(copies))
+			if field != "" && c.Fingerprint() != fp {
+				ctx.rep.Inconclusive(fmt.Sprintf("%s script %d: membership/routing changed during the script (not a stable cluster)", spec, sc))
+				_ = c.WaitStable(30 * time.Second)
+				break
+			}
 			if field != "" {
 				violated = true
 				op := step.Op
@@ -338,6 +344,9 @@ func c04Child(ctx *runCtx, spec string) {
 				ss = append(ss, s.String())
 			}
 			ctx.rep.Sample(map[string]interface{}{"config": spec, "dmap": name, "script": ss})
+		}
+		if d, err := c.Live()[0].Emb.NewDMap(name); err == nil {
+			_ = d.Destroy(bg) // free the fragments of this script
 		}
 		sess.Close()
 		router.Close()
